@@ -137,11 +137,15 @@ class Rope:
     __slots__ = ("pieces",)
 
     def __init__(self, pieces=()):
-        out = []
+        flat = []
         for p in pieces:
             if isinstance(p, Rope):
-                out.extend(p.pieces)
-            elif isinstance(p, str):
+                flat.extend(p.pieces)
+            else:
+                flat.append(p)
+        out = []
+        for p in flat:
+            if isinstance(p, str):
                 if p == "":
                     continue
                 if out and isinstance(out[-1], str):
